@@ -314,7 +314,7 @@ func (tx *OngoingTx) set(key []byte, md *KVMetadata, value []byte, hashValue [sh
 	indexers := tx.st.indexers
 	tx.st.indexersMux.RUnlock()
 
-	for _, indexer := range indexers {
+	for _, indexer := range tx.st.orderedIndexers(indexers) {
 		if isTransient && !hasPrefix(key, indexer.TargetPrefix()) {
 			continue
 		}
